@@ -3,6 +3,27 @@ import random
 
 from .. import recipedriver, sched, common
 from ..common import Outcome, pmap, validate_all
+from ..envctl import MachineryError
+from ..tlc import run_tlc
+
+THROTTLE_MODELS = {'quick': [('ok', '2 callers x 2 calls, 2 per period, 1/2-token grid, 16 ticks')],
+                   'thorough': [('ok', '2 callers x 2 calls, 2 per period, 1/2-token grid, 16 ticks'),
+                                ('big', '3 callers x 2 calls, 2 per period, 1/2-token grid, 22 ticks'),
+                                ('rate3', '2 callers x 3 calls, 3 per period, 1/3-token grid, 24 ticks')]}
+
+
+def design_level(out, tier):
+    """Throttle.tla: the token bucket explored exhaustively (RateBound, TallyBounded, EventuallyThrough under fairness);
+    without the cap on the refilled tally the model must break."""
+    for name, what in THROTTLE_MODELS[tier]:
+        res = run_tlc('MCThrottle.tla', 'MCThrottle_%s.cfg' % name, workers=16, timeout=1500)
+        if res.error or res.violation:
+            raise MachineryError('design model MCThrottle_%s: %s %s\n%s' % (name, res.error, res.violation, res.out[-1500:]))
+        out.add_tlc('MCThrottle_%s.cfg' % name, res, what + '; RateBound, TallyBounded, EventuallyThrough')
+    res = run_tlc('MCThrottle.tla', 'MCThrottle_nocap.cfg', workers=4, timeout=300)
+    if res.violation not in ('TallyBounded', 'RateBound'):
+        raise MachineryError('MCThrottle_nocap was expected to violate TallyBounded or RateBound, got %s %s' % (res.violation, res.error))
+    out.notes['design_deviations_rejected'] = ['nocap (refilled tally not capped at count) violates %s' % res.violation]
 
 
 def _avg_dfs(cfg, prog, bound, max_runs, seed):
@@ -25,6 +46,7 @@ def _thr(cfg, arrivals, seed):
 
 def run(prop, tier, seed):
     out = Outcome('C20', tier, seed)
+    design_level(out, tier)
     rng = random.Random(seed * 198491317 + 20)
     dfs, rnd, thr = [], [], []
     vals = [1, 2, 4]
@@ -62,7 +84,7 @@ def run(prop, tier, seed):
         t['id'] = i + 1
     out.traces = len(traces)
     out.events = sum(len(t['ev']) for t in traces)
-    common.TRACE_FIELDS = ('id', 'nc', 'kind', 'ev', 'count', 'secq', 'q', 'calls', 'starts', 'starts_hi')
+    common.TRACE_FIELDS = ('id', 'nc', 'kind', 'ev', 'count', 'secq', 'q', 'calls', 'starts', 'starts_hi', 'seconds')
     verdicts, st, tr = validate_all('RecipesTrace.tla', 'RecipesTrace.cfg', traces, batch_events=40000)
     out.states += st
     out.transitions += tr
@@ -81,4 +103,4 @@ def run(prop, tier, seed):
     return out.finish({'evaluations': len(traces), 'distinct_nontrivial': len({str(t['program']) + str(t['cfg']) for t in traces}),
                        'rule': 'Averager: scheduler-enumerated (<= 2 preemptions) and random schedules of 2-3 adders/poppers/readers, the pair published by every COMMIT '
                                'validated by TLC; throttle: rates (1/1, 2/1, 3/2, 1/2) x 1-3 callers x arrival patterns (burst, idle then burst, steady, random) under a virtual clock, '
-                               'start history checked by TLC against RateBound; distinct = distinct programs'})
+                               'every pass of the loop checked by TLC as a step of Throttle!Try (pair read = pair stored last; start/cap/sleep follow from it) and the start history against RateBound; distinct = distinct programs'})
